@@ -1,9 +1,48 @@
 import BronVerif.Drive.Common
+import BronVerif.Model.Hash.Keccak
+import BronVerif.Model.Hash.Sha2
+import BronVerif.Model.Hash.Blake2b
 /-! Driver handlers for C19. -/
 namespace BronVerif.Drive.C19
-open BronVerif BronVerif.Drive
+open BronVerif BronVerif.Drive BronVerif.Hash
 
-def handle (op : String) (_args : List String) (_rhs : String) : Verdict :=
-  .unsupported ("C19 op " ++ op)
+def hmacSha3_256 (key msg : ByteArray) : ByteArray := hmac sha3_256 136 key msg
+
+/-- `hash <alg> <params…> <msg>`: evaluate the Lean model of the named primitive -/
+def hashModel (alg : String) (params : List String) : Option ByteArray :=
+  match alg, params with
+  | "sha256", [m] => (hexToBytes? m).map sha256
+  | "sha224", [m] => (hexToBytes? m).map sha224
+  | "sha512", [m] => (hexToBytes? m).map sha512
+  | "sha384", [m] => (hexToBytes? m).map sha384
+  | "sha512_256", [m] => (hexToBytes? m).map sha512_256
+  | "sha3_256", [m] => (hexToBytes? m).map sha3_256
+  | "sha3_512", [m] => (hexToBytes? m).map sha3_512
+  | "sha3_384", [m] => (hexToBytes? m).map sha3_384
+  | "sha3_224", [m] => (hexToBytes? m).map sha3_224
+  | "shake128", [n, m] => do shake128 (← hexToBytes? m) (← n.toNat?)
+  | "shake256", [n, m] => do shake256 (← hexToBytes? m) (← n.toNat?)
+  | "cshake128", [N, S, n, m] => do cshake128 (← hexToBytes? N) (← hexToBytes? S) (← hexToBytes? m) (← n.toNat?)
+  | "cshake256", [N, S, n, m] => do cshake256 (← hexToBytes? N) (← hexToBytes? S) (← hexToBytes? m) (← n.toNat?)
+  | "kmac128", [k, S, n, m] => do kmac128 (← hexToBytes? k) (← hexToBytes? S) (← hexToBytes? m) (← n.toNat?)
+  | "kmac256", [k, S, n, m] => do kmac256 (← hexToBytes? k) (← hexToBytes? S) (← hexToBytes? m) (← n.toNat?)
+  | "blake2b", [k, n, m] => do blake2b (← hexToBytes? k) (← hexToBytes? m) (← n.toNat?)
+  | "blake2xb", [k, x, n, m] => do blake2xb (← hexToBytes? k) (← hexToBytes? m) (← x.toNat?) (← n.toNat?)
+  | "hmacSha256", [k, m] => do hmacSha256 (← hexToBytes? k) (← hexToBytes? m)
+  | "hmacSha512", [k, m] => do hmacSha512 (← hexToBytes? k) (← hexToBytes? m)
+  | "hmacSha3_256", [k, m] => do hmacSha3_256 (← hexToBytes? k) (← hexToBytes? m)
+  | "hkdfSha256", [salt, info, n, ikm] => do
+      hkdfExpand sha256 64 (hkdfExtract sha256 64 (← hexToBytes? salt) (← hexToBytes? ikm)) (← hexToBytes? info) (← n.toNat?)
+  | "hkdfSha3_256", [salt, info, n, ikm] => do
+      hkdfExpand sha3_256 136 (hkdfExtract sha3_256 136 (← hexToBytes? salt) (← hexToBytes? ikm)) (← hexToBytes? info) (← n.toNat?)
+  | _, _ => none
+
+def handle (op : String) (args : List String) (rhs : String) : Verdict :=
+  match op, args with
+  | "hash", alg :: params =>
+    match hashModel alg params with
+    | some d => spec ("hash." ++ alg) (bytesToHex d) rhs
+    | none => .unsupported ("C19 hash " ++ alg)
+  | _, _ => .unsupported ("C19 op " ++ op)
 
 end BronVerif.Drive.C19
